@@ -214,6 +214,7 @@ static int v_ew_budget;		/* blocking epoll_wait() calls that may still return an
 static int v_ew_pick;		/* 1: prefer reporting the nested (virtual thread) epoll, 0: prefer the own queue */
 static int v_ew_spurious;	/* 1: the nested epoll may be reported although it has nothing (stale wake-up) */
 static int v_ew_delivered;	/* events handed out */
+static int v_ew_only = -1;	/* >= 0: outer waits report only registrations of that nesting kind (concrete shape knob) */
 #ifndef V_EW_BLOCK
 #define V_EW_BLOCK()	(errno = EBADF, -1)
 #endif
@@ -233,15 +234,20 @@ v_epoll_wait(int epfd, struct epoll_event *ev, int maxev, int timeout) {
 		v_ew_budget --;
 	}
 	const struct v_epoll_s *e = &v_epolls[v_fdt[epfd].idx];
+	/* The result is assigned inside the loop (constant i) so that CBMC keeps the registration's pointer constant. */
 	for (i = 0; i < V_EPR; i ++) {
 		if (!e->r[i].used)
 			continue;
 		int nested = (FD_EPOLL == e->r[i].kind);
+		if (0 != timeout && v_ew_only >= 0 && nested != v_ew_only)
+			continue;	/* shape: this step reports only the own queue (0) / only the nested epoll (1) */
 		if (!(v_reg_ready(&e->r[i]) || (nested && v_ew_spurious)))
 			continue;
 		if (found < 0 || (nested == v_ew_pick && found_nested != v_ew_pick)) {
 			found = i;
 			found_nested = nested;
+			ev->events = EPOLLIN;
+			ev->data.ptr = e->r[i].ptr;
 		}
 	}
 	if (found < 0) {
@@ -249,8 +255,6 @@ v_epoll_wait(int epfd, struct epoll_event *ev, int maxev, int timeout) {
 			return (0);
 		return (V_EW_BLOCK());
 	}
-	ev->events = EPOLLIN;
-	ev->data.ptr = e->r[found].ptr;
 	v_ew_delivered ++;
 	return (1);
 }
